@@ -277,6 +277,8 @@ class UnitGen:
 
 
 def magnitude(rnd, simple=False):
+    if rnd.random() < 0.08:
+        return rnd.choice(["0", "0", "0.0", "1", "-1"])
     if simple or rnd.random() < 0.4:
         return str(rnd.randint(1, 99))
     return lang.rand_literal(rnd, maxdigits=rnd.choice([2, 4, 8]), allow_exp=rnd.random() < 0.3, allow_neg=rnd.random() < 0.3)
